@@ -432,7 +432,7 @@ type ccase struct {
 	SetupSeed int64   `json:"setup_seed"`
 	Mask      mt.Mask `json:"read_mask"`
 	Writes    int     `json:"writes,omitempty"`
-	Pending   bool    `json:"first_write_pending,omitempty"` // mode updates: the first write has stored but not published when the streams open
+	Pending   bool    `json:"first_write_pending,omitempty"` // modes updates and pull: the first write has stored but not published when the streams open
 	Unmasked  string  `json:"unmasked,omitempty"` // what the unmasked read returned (information for the reader of a replay)
 }
 
@@ -613,6 +613,15 @@ func collectSeeds(inst *instance, mask *fieldmaskpb.FieldMask, n int, out *cout)
 func (c ccase) runPull(g *mt.Gen, inst *instance, out *cout) {
 	ctx, cancel := context.WithCancel(bg)
 	defer cancel()
+	// Pending: the first write is begun before the subscription opens and held between storing its value and
+	// publishing its change; the subscription is seeded from what it stored and is then sent its change
+	var pend *pgate
+	if c.Pending {
+		park := newParker("coll.update.beforeSend", "value.set.beforeSend")
+		defer park.close()
+		pend = park.start("pending write", func() error { inst.Write(g); return nil })
+		out.Held = pend.held
+	}
 	raw0 := cloneAll(inst.Read(nil))
 	ch := inst.Pull(ctx, c.Mask.FM())
 	var last proto.Message
@@ -643,7 +652,11 @@ func (c ccase) runPull(g *mt.Gen, inst *instance, out *cout) {
 		out.Mutated = "the unmasked read after the subscription delivered its seed differs from the one before: " + canonAll(raw0) + " -> " + canonAll(after)
 	}
 	for i := 0; i < c.Writes; i++ {
-		inst.Write(g)
+		if i == 0 && pend != nil {
+			pend.finish("pending write")
+		} else {
+			inst.Write(g)
+		}
 		before := cloneAll(inst.Read(nil))
 		if !expect(fmt.Sprintf("update%d", i+1)) {
 			return
@@ -771,6 +784,9 @@ func runComposed(cases []ccase, tie *lib.Tie, mon *lib.Monitor, drv *lib.Driver)
 				tie.Count(fmt.Sprintf("updates:first-write-pending held=%v@%s", out.Held, c.Reader))
 			}
 		}
+		if c.Mode == "pull" && c.Pending {
+			tie.Count(fmt.Sprintf("pull:first-write-pending held=%v@%s", out.Held, c.Reader))
+		}
 		nonEmptyRaw := false
 		for _, m := range out.Raw {
 			nonEmptyRaw = nonEmptyRaw || (m != nil && nonEmpty(m))
@@ -852,12 +868,12 @@ func composedCases(g *mt.Gen, perReader int, pullCases int) []ccase {
 				if i >= pullCases {
 					break
 				}
-				out = append(out, ccase{Reader: r.Name, Mode: "pull", SetupSeed: seed(), Mask: m, Writes: 2 + g.R.Intn(3)})
+				out = append(out, ccase{Reader: r.Name, Mode: "pull", SetupSeed: seed(), Mask: m, Writes: 2 + g.R.Intn(3), Pending: i%2 == 1})
 			}
 			// nested masks below the composed fields are what a subscription must not get wrong
 			for i := 0; i < pullCases; i++ {
 				m := ms[g.R.Intn(len(ms))]
-				out = append(out, ccase{Reader: r.Name, Mode: "pull", SetupSeed: seed(), Mask: m, Writes: 2 + g.R.Intn(3)})
+				out = append(out, ccase{Reader: r.Name, Mode: "pull", SetupSeed: seed(), Mask: m, Writes: 2 + g.R.Intn(3), Pending: g.R.Intn(2) == 0})
 			}
 			continue
 		}
